@@ -59,6 +59,17 @@ def d_chars(x):
     return ''.join(sorted(str(x)))
 
 
+def d_feedback(x):
+    """language-comparison feedback: the verdict, the polarity and the LENGTH of the reported word are content; which
+    of several shortest words is reported depends on set order and is not demanded to be identical"""
+    import re
+    out = []
+    for msg in x:
+        m = re.search(r"word '(.*)' should (not )?be accepted", msg)
+        out.append(('should not' if m.group(2) else 'should', 0 if m.group(1) == 'ε' else len(m.group(1))) if m else msg)
+    return out
+
+
 def d_symbols(x):
     return sorted(getattr(s, 'symbol', str(s)) for s in x)
 
@@ -180,7 +191,7 @@ def catalogue(P, with_checkers=True):
                 add('%s#%d,%d' % (f, i, j), getattr(da, f), B2, d_fa)
             add('dfa_isomorphic1#%d,%d' % (i, j), da.dfa_isomorphic1, B2, d_val)
             add('dfa_isomorphic#%d,%d' % (i, j), da.dfa_isomorphic, B2, d_val)
-            add('check_equal_languages(DFA)#%d,%d' % (i, j), lg.check_equal_languages, B2 + [lambda: 3], d_val)
+            add('check_equal_languages(DFA)#%d,%d' % (i, j), lg.check_equal_languages, B2 + [lambda: 3], d_feedback)
         add('dfa_isomorphic1#%d,copy' % i, da.dfa_isomorphic1, B + [lambda R=R: adapt.build_dfa(fag.rename(R, {q: 'c_' + q for q in R[0]}))], d_val)
     for i, (R, eps, kind) in enumerate(P['nfa']):
         B = [lambda R=R, eps=eps, kind=kind: adapt.build_nfa(R, eps, kind)]
@@ -275,8 +286,8 @@ def catalogue(P, with_checkers=True):
         add('language.%s' % f, getattr(la, f), [lambda: set(L1), lambda: set(L2)], d_val)
     for f in ('language_reverse', 'language_no_prefix', 'language_no_extend'):
         add('language.%s' % f, getattr(la, f), [lambda: set(L1)], d_val)
-    add('compare_languages', lg.compare_languages, [lambda: set(L1), lambda: set(L2)], d_val)
-    add('compare_languages/rev', lg.compare_languages, [lambda: set(L2), lambda: set(L1)], d_val)
+    add('compare_languages', lg.compare_languages, [lambda: set(L1), lambda: set(L2)], d_feedback)
+    add('compare_languages/rev', lg.compare_languages, [lambda: set(L2), lambda: set(L1)], d_feedback)
     if with_checkers:
         C.extend(checker_calls(P))
     return C
